@@ -9,7 +9,7 @@ open AscentVerif AscentVerif.Engine
 
 /-- the errors macro expansion can return -/
 def Err.expandErr : Err → Bool
-  | .recMacro | .undefMacro | .macroArgs | .unexpectedToken | .unsupported | .panicFlatten => true
+  | .recMacro | .undefMacro | .macroArgs | .unexpectedToken | .unsupported => true
   | _ => false
 
 theorem expandItem_err (ms : List MacroDef) :
@@ -42,8 +42,7 @@ theorem expandItem_err (ms : List MacroDef) :
           subst hfa
           obtain ⟨x, hx, hfx⟩ := List.mem_map.1 (collectEager_error he2)
           exact ih _ _ _ _ hfx
-        · rw [flattenP_error hfa]
-          rfl
+        · exact (flattenP_error hfa).elim
       · cases h
     | mac name args =>
       rw [expandItem] at h
@@ -62,8 +61,7 @@ theorem expandItem_err (ms : List MacroDef) :
                 subst h
                 obtain ⟨x, hx, hfx⟩ := mapLazy_error he1
                 exact ih _ _ _ _ hfx
-              · rw [flattenP_error h]
-                rfl
+              · exact (flattenP_error h).elim
 
 theorem expandHead_err (ms : List MacroDef) :
     ∀ (fuel : Nat) (hd : HItem) (e : Err), expandHead ms fuel hd = .error e → e.expandErr = true := by
@@ -94,8 +92,7 @@ theorem expandHead_err (ms : List MacroDef) :
                 subst h
                 obtain ⟨x, hx, hfx⟩ := List.mem_map.1 (collectEager_error he1)
                 exact ih _ _ hfx
-              · rw [flattenP_error h]
-                rfl
+              · exact (flattenP_error h).elim
 
 /-- expansion of a head never returns a macro invocation -/
 theorem expandHead_clause (ms : List MacroDef) :
@@ -153,8 +150,7 @@ theorem expandRule_err {ms : List MacroDef} {r : Rule} {e : Err} (h : expandRule
       · rename_i e1 he1
         simp only [Except.error.injEq] at h
         subst h
-        rw [flattenP_error he1]
-        rfl
+        exact (flattenP_error he1).elim
       · cases h
 
 theorem expandRule_heads_clause {ms : List MacroDef} {r r' : Rule} (h : expandRule ms r = .ok r') :
